@@ -700,6 +700,41 @@ Proof.
   destruct Hq; contradiction.
 Qed.
 
+(* ================================================================ welcome page (mapproxy/wsgiapp.py) *)
+
+Lemma mode_after_text_no_lt v : (forall c, In c v -> c <> c_lt) -> mode_after MText v = MText.
+Proof.
+  induction v as [|a v IH]; intros H; [reflexivity|].
+  rewrite mode_after_cons. cbn [mode_step].
+  assert (a <> c_lt) as Ha by (apply H; left; reflexivity). apply Z.eqb_neq in Ha. rewrite Ha.
+  apply IH. intros c Hc. apply H. right. exact Hc.
+Qed.
+
+Lemma welcome_page_structure version :
+  (forall c, In c version -> c <> c_lt) ->
+  exists tp pre t ts,
+    (forall s, t <> Text s) /\
+    forall url, tokenize (welcome_page version true url) = tp ++ tok_add (pre ++ escape_html url) t :: ts.
+Proof.
+  intros Hv.
+  assert (attr_position c_quot (welcome_w1 ++ version ++ welcome_w2 ++ welcome_w3)) as HP.
+  { unfold attr_position. rewrite !mode_after_app.
+    replace (mode_after MText welcome_w1) with MText by (vm_compute; reflexivity).
+    rewrite (mode_after_text_no_lt version Hv). vm_compute. reflexivity. }
+  destruct (escape_html_attr c_quot _ welcome_w4 (or_introl eq_refl) HP) as [tp [pre [t [ts [Ht H]]]]].
+  exists tp, pre, t, ts. split; [exact Ht|]. intros url.
+  unfold welcome_page, welcome_response. cbv beta iota. rewrite gen_escape_html_is_model.
+  rewrite <- (H url). f_equal. repeat rewrite <- app_assoc. reflexivity.
+Qed.
+
+(* 4.0.2 *)
+Example welcome_page_example :
+  filter (fun t => match t with Tag s => is_prefix [97; 32] s | _ => false end)
+    (tokenize (welcome_page [52; 46; 48; 46; 50] true [104; 34; 62; 60; 120; 62]))        (* url = h dquote > < x > *)
+  = [Tag ([97; 32; 104; 114; 101; 102; 61; 34] ++ [104; 38; 103; 116; 59; 38; 108; 116; 59; 120; 38; 103; 116; 59]
+          ++ [47; 100; 101; 109; 111; 47; 34])].
+Proof. vm_compute. reflexivity. Qed.
+
 (* ================================================================ non-vacuity *)
 
 (* <b a="1">&'  *)
@@ -727,8 +762,10 @@ Example tokenize_example :
   = [Text []; Tag [97; 32; 98; 61; 34; 62; 34]; Text [120]; Tag [47; 97]; Text [10]].
 Proof. vm_compute. reflexivity. Qed.
 
-Example templates_nonempty : length exception_templates = 7%nat /\ length exception_codes = 9%nat.
-Proof. vm_compute. split; reflexivity. Qed.
+Example templates_nonempty :
+  Nat.leb 1 (length exception_templates) = true /\ Nat.leb 1 (length exception_codes) = true /\
+  In tpl_wms111exception exception_templates /\ In tpl_ows_exception exception_templates.
+Proof. vm_compute. repeat split; auto 12. Qed.
 
 Example c_InvalidSRS : str := [73; 110; 118; 97; 108; 105; 100; 83; 82; 83].
 
